@@ -29,8 +29,28 @@ def make_stream(case, data):
         return io.BytesIO(data), None
     if kind == "buffered":
         return io.BufferedReader(io.BytesIO(data), buffer_size=case["bufsize"]), None
-    sock = ScriptedSocket(streams.split(data, case["cuts"]) + ["close"])
-    sock.budget = 4 * len(data) + 64
+    gaps = case.get("gaps") or []
+    bounds = []
+    off = 0
+    for i in case["items"]:
+        off += len(i["b"]) // 2
+        bounds.append(off)
+    cuts = sorted(set(case["cuts"]) | (set(bounds[:-1]) if any(gaps) else set()))
+    segs = streams.split(data, cuts)
+    events = []
+    pos = 0
+    nb = 0
+    for sg in segs:
+        events.append(sg)
+        pos += len(sg)
+        if gaps and pos in bounds[:-1]:
+            # a gap in delivery exactly between two items: the application polls again, later data must still arrive
+            # (a gap INSIDE a frame makes the reader, not the wrapper, drop that frame - outside this property)
+            if gaps[nb % len(gaps)]:
+                events.append("timeout")
+            nb += 1
+    sock = ScriptedSocket(events + ["close"])
+    sock.budget = 4 * len(data) + 4 * len(events) + 64
     return sock, sock
 
 
@@ -44,13 +64,28 @@ def o_seq(case):
     try:
         rdr = RTCMReader(stream, quitonerror=case["qoe"], parsed=case["parsed"], bufsize=case.get("bufsize", 4096))
         got = []
+        raised = False
         it = iter(rdr)
         cap = len(emitted) + 4
+        polls = 0
         while True:
             try:
                 raw, parsed = next(it)
             except StopIteration:
+                # end of iteration; over a socket with gaps in delivery the application polls again until the peer closes
+                if sock is not None and not sock.closed_by_peer and polls < 4 * len(case.get("cuts", [])) + 16:
+                    polls += 1
+                    it = iter(rdr)
+                    continue
                 break
+            except Exception as e:  # pylint: disable=broad-except
+                from pv.checks.c04 import lib_errors
+
+                # raise mode: a filler frame (no message number) is reported; the SAME iterator must go on afterwards
+                if case["qoe"] == 2 and isinstance(e, lib_errors()) and any(i["k"] == "filler" for i in items):
+                    raised = True
+                    continue
+                raise
             got.append((raw, parsed))
             if len(got) > cap:
                 raise Fail("too-many-results", f"{len(got)} results for {len(emitted)} emitted frames")
@@ -93,6 +128,10 @@ def o_seq(case):
         cls.append("ubx-with-sync-bytes")
     if "nmea" in kinds:
         cls.append("has-nmea")
+    if case["qoe"] == 2 and "filler" in kinds and case["parsed"]:
+        cls.append("raise-mode-with-filler")
+    if case["stream"] == "socket" and any(case.get("gaps") or []):
+        cls.append("socket-delivery-gaps")
     if case.get("long"):
         cls.append("long-stream")
         if len(data) > 1024 * 1024:
@@ -125,13 +164,14 @@ def s_seq(draw, tier):
     case = {"items": items}
     case["stream"] = draw(st.sampled_from(["bytesio", "buffered", "socket"]))
     case["parsed"] = draw(st.sampled_from([True, True, False]))
-    case["qoe"] = draw(st.sampled_from([0, 1] if has_filler and case["parsed"] else [0, 1, 2]))
+    case["qoe"] = draw(st.sampled_from([0, 1, 2]))
     n = sum(len(i["b"]) // 2 for i in items)
     if case["stream"] == "buffered":
         case["bufsize"] = draw(st.sampled_from([1, 2, 3, 7, 16, 64, 4096]))
     if case["stream"] == "socket":
         case["bufsize"] = draw(st.sampled_from([1, 2, 3, 5, 64, 512, 4096]))
         case["cuts"] = draw(streams.partitions(n))
+        case["gaps"] = draw(st.one_of(st.just([]), st.lists(st.booleans(), min_size=1, max_size=6)))
     return case
 
 
@@ -212,7 +252,7 @@ SUBS = [
         enum=e_all,
         examples=(150, 4000),
         rule="see property rule",
-        need={"more-than-1MiB-through-one-socket": 1, "long-stream": 1, "ubx-length>=32767": 1, "two-byte-payload-frame": 1, "zero-length-frame": 1, "has-1023-frame": 1, "ubx-with-sync-bytes": 1, "socket": 1, "buffered": 1, "qoe2": 1},
+        need={"raise-mode-with-filler": 1, "socket-delivery-gaps": 1, "more-than-1MiB-through-one-socket": 1, "long-stream": 1, "ubx-length>=32767": 1, "two-byte-payload-frame": 1, "zero-length-frame": 1, "has-1023-frame": 1, "ubx-with-sync-bytes": 1, "socket": 1, "buffered": 1, "qoe2": 1},
         sample=_sample,
     ),
 ]
